@@ -78,6 +78,9 @@ def build_tree(root, rng, gen):
                 out[c] = e
             else:
                 out[c] = _entry(gen, rng, c, fault_p)
+            if rng.random() < 0.2:
+                # the column described without annotation: at a deeper level this replaces a shallower annotated entry
+                out[c] = {"Description": f"{c}, not annotated here", "Levels": {k: f"level {k}" for k in KEYS.get(c, ["x"])}}
         if rng.random() < 0.3:
             out["TaskName" if rng.random() < 0.5 else "notes"] = {"Description": "no HED here"}
         return out
